@@ -59,6 +59,10 @@ pub enum Step {
     Incoming { rec: Rec, v6: bool, matching: bool, attach: bool },
     /// the handler reports Established(Outgoing) for an outstanding request (its contact's record)
     OutgoingEstablished { sel: u16 },
+    /// the handler reports Established(Outgoing) with a record the service did not choose: the peer of
+    /// a user-built, record-less contact (Discv5::talk_req / find_node_designated_peer) answered the
+    /// record request with it
+    OutgoingEstablishedWith { rec: Rec },
     AnswerFindNode { sel: u16, recs: Vec<Rec> },
     AnswerPing { sel: u16, seq_delta: u8 },
     Fail { sel: u16 },
@@ -306,6 +310,18 @@ async fn run(case: &Case, rep: &mut CaseReport) -> Option<(String, String)> {
                 }
                 s.inject(HandlerOut::Established(enr, o.contact.socket_addr(), ConnectionDirection::Outgoing)).await;
             }
+            Step::OutgoingEstablishedWith { rec } => {
+                let enr = rec_enr(rec);
+                let sock = contactable(case.mode, &enr).unwrap_or(svc_addr4(kidx(rec.key)));
+                allowed.insert(enr.node_id().raw());
+                admits = Some(enr.node_id().raw());
+                network_learnt = true;
+                if contactable(case.mode, &enr).is_none() {
+                    rep.class("outgoing-session-with-a-record-that-is-not-contactable");
+                    nontrivial = true;
+                }
+                s.inject(HandlerOut::Established(enr, sock, ConnectionDirection::Outgoing)).await;
+            }
             Step::AnswerFindNode { sel, recs } => {
                 let cands: Vec<usize> = outstanding.iter().enumerate().filter(|(_, o)| matches!(o.body, RequestBody::FindNode { .. })).map(|(i, _)| i).collect();
                 if cands.is_empty() {
@@ -413,7 +429,7 @@ async fn run(case: &Case, rep: &mut CaseReport) -> Option<(String, String)> {
             }
             if !filt(enr) {
                 return Some((
-                    format!("admission/entry-fails-table-filter/{}", match step { Step::Incoming { .. } | Step::OutgoingEstablished { .. } => "via-session", Step::AnswerFindNode { .. } => "via-nodes", _ => "other" }),
+                    format!("admission/entry-fails-table-filter/{}", match step { Step::Incoming { .. } | Step::OutgoingEstablished { .. } | Step::OutgoingEstablishedWith { .. } => "via-session", Step::AnswerFindNode { .. } => "via-nodes", _ => "other" }),
                     format!("entry {id} does not pass the configured table filter {:?} (after {step:?})", case.filter),
                 ));
             }
@@ -488,7 +504,16 @@ impl Property for C12 {
             8 => (rec_strategy(), any::<bool>(), prop_oneof![4 => Just(true), 1 => Just(false)], prop_oneof![3 => Just(true), 1 => Just(false)])
                 .prop_map(|(rec, v6, matching, attach)| Step::Incoming { rec, v6, matching, attach }),
             4 => any::<u16>().prop_map(|sel| Step::OutgoingEstablished { sel }),
-            9 => (any::<u16>(), proptest::collection::vec(rec_strategy(), 0..5)).prop_map(|(sel, recs)| Step::AnswerFindNode { sel, recs }),
+            2 => rec_strategy().prop_map(|rec| Step::OutgoingEstablishedWith { rec }),
+            9 => (any::<u16>(), proptest::collection::vec(rec_strategy(), 0..5), prop_oneof![2 => Just(None), 1 => rec_strategy().prop_map(Some)]).prop_map(|(sel, mut recs, dup)| {
+                // in a third of the answers one node is listed twice, the later record being the older one
+                if let (Some(d), Some(first)) = (dup, recs.first().cloned()) {
+                    if first.ver > 1 {
+                        recs.insert(1, Rec { key: first.key, ver: first.ver - 1, shape: d.shape });
+                    }
+                }
+                Step::AnswerFindNode { sel, recs }
+            }),
             3 => (any::<u16>(), 0u8..3).prop_map(|(sel, seq_delta)| Step::AnswerPing { sel, seq_delta }),
             2 => any::<u16>().prop_map(|sel| Step::Fail { sel }),
             5 => rec_strategy().prop_map(|rec| Step::AddEnr { rec }),
